@@ -8,7 +8,8 @@
 (* abstract message (seeded byte fillings), sends it over a real TLS       *)
 (* connection from an authenticated client and checks that the daemon      *)
 (* still answers.  The only invariant is "alive": the daemon neither dies  *)
-(* nor stops answering; the caller gets a response or an error.            *)
+(* nor stops answering (another client's listing AND signing request are   *)
+(* answered afterwards); the caller gets a response or an error.           *)
 (***************************************************************************)
 EXTENDS Integers, Sequences, FiniteSets, TLC, Json
 CONSTANTS OutFile
@@ -30,16 +31,24 @@ Str == {"empty", "wallet-only", "valid", "unknown", "no-wallet", "badregex", "lo
 \* content classes of a passphrase (the length class is a separate field): random bytes, all zero, all 0xff, printable, and text
 \* mixing invalid UTF-8 with combining marks (passphrases are Unicode-normalised by the keystore encryptor)
 Fill == {"random", "zeros", "ones", "ascii", "combining"}
+\* a caller's patience: the request's deadline travels on the wire (grpc-timeout); when it expires the server cancels the handler's
+\* context wherever the handler happens to be.  "gone-*" callers give up after 5 / 40 ms.
+Patience == {"patient", "gone-5ms", "gone-40ms"}
+\* state of the addressed start-up account when the request arrives: as the run left it, or locked just before (the request then has
+\* to open it through the unlocker - some 50 ms of keystore decryption during which an impatient caller is gone)
+AcctState == {"as-is", "locked"}
 DomainT == {"absent", "empty", "len1", "len3", "att", "prop", "exit", "randao", "att-len31", "att-len33", "len1000"}
 
 Fields == [
-  Sign          |-> [id |-> Id, domain |-> DomainT, data |-> Bytes],
-  Multisign     |-> [count |-> Count, id |-> Id, domain |-> DomainT, data |-> Bytes, mix |-> {"same", "alternate-empty"}],
+  Sign          |-> [id |-> Id, domain |-> DomainT, data |-> Bytes, patience |-> Patience, acct |-> AcctState],
+  Multisign     |-> [count |-> Count, id |-> Id, domain |-> DomainT, data |-> Bytes, mix |-> {"same", "alternate-empty"},
+                     patience |-> Patience, acct |-> AcctState],
   Attestation   |-> [id |-> Id, domain |-> DomainT, data |-> Presence, slot |-> U64, index |-> U64, bbr |-> Roots, source |-> Presence, sepoch |-> U64,
-                     sroot |-> Roots, target |-> Presence, tepoch |-> U64, troot |-> Roots],
+                     sroot |-> Roots, target |-> Presence, tepoch |-> U64, troot |-> Roots, patience |-> Patience, acct |-> AcctState],
   Attestations  |-> [count |-> Count, id |-> Id, domain |-> DomainT, data |-> Presence, sepoch |-> U64, tepoch |-> U64, bbr |-> Roots, source |-> Presence,
-                     target |-> Presence, sroot |-> Roots, mix |-> {"same", "alternate-empty", "same-account"}],
-  Proposal      |-> [id |-> Id, domain |-> DomainT, data |-> Presence, slot |-> U64, proposer |-> U64, parent |-> Roots, state |-> Roots, body |-> Roots],
+                     target |-> Presence, sroot |-> Roots, mix |-> {"same", "alternate-empty", "same-account"}, patience |-> Patience, acct |-> AcctState],
+  Proposal      |-> [id |-> Id, domain |-> DomainT, data |-> Presence, slot |-> U64, proposer |-> U64, parent |-> Roots, state |-> Roots, body |-> Roots,
+                     patience |-> Patience, acct |-> AcctState],
   List          |-> [count |-> Count, path |-> PathShape, mix |-> {"same", "distinct"}],
   Generate      |-> [account |-> Str, passphrase |-> Bytes, fill |-> Fill, participants |-> U32, threshold |-> U32],
   LockAccount   |-> [account |-> Str],
